@@ -484,7 +484,7 @@ def gen_pairs(block, tier):
         partners = [j for j in range(len(sch)) if j < lo or j > ia] if ia >= lo else []
     else:
         partners = list(range(ia + 1, len(sch)))
-    nfiles = 1 if tier == 'quick' else 3
+    nfiles = 1 if tier == 'quick' else 2
     A = sch[ia]
     for ib in partners:
         B = sch[ib]
@@ -660,13 +660,16 @@ def run(tier, seed, rep):
             blocks.append(('pairs', synth, oi, tier))
             if row[2] in ('str', 'list'):
                 blocks.append(('interp', synth, oi, tier))
-    blocks = core.rotate(blocks, seed)
-    core.merge_all(run_block, blocks, rep)
+    # the small families first, so that the example kept for a deviation is a short one
+    small = [b for b in blocks if b[0] in ('doc', 'shapes')]
+    rest = [b for b in blocks if b[0] not in ('doc', 'shapes')]
+    core.merge_all(run_block, core.rotate(small, seed), rep)
+    core.merge_all(run_block, core.rotate(rest, seed), rep)
     bounds = {
         'options': nreal, 'synthetic_options': nall - nreal, 'max_config_files': 3,
         'single_sources': 4, 'bool_file_spellings': len(file_menu(M.SCHEMA[3], tier, False)),
         'shape_files_max': 2 if tier == 'quick' else 3, 'shape_states': len(SHAPE_STATES),
-        'pair_sources': 2 if tier == 'quick' else 4,
+        'pair_sources': 2 if tier == 'quick' else 3,
         'interp_templates': 2 if tier == 'quick' else 3,
     }
     return {'exhaustive': True, 'bounds': bounds, 'blocks': len(blocks),
